@@ -7,7 +7,7 @@ timeout-at-deadline.
 from analysis.flow import must_cross, return_points, term_pt, in_cycle
 from analysis.guards import facts_at, field_writes, _mentions_field
 from analysis.mir import op_place, rv_operands, callee_matches
-from analysis.sym import Sym, render, is_call, walk
+from analysis.sym import Sym, render, is_call, walk, const_val
 from rules.common import site, option_fact, texts, blocks_assigning_variant
 
 INNER = "stream::TransferControlInner"
@@ -329,6 +329,71 @@ def run(facts, R):
                         if q_ is not None and q_["l"] == wl_:
                             good_n.append(term_pt(b, i_))
             wpath = must_cross(b, [(w["bb"], w["idx"])], return_points(b), good_n)
+            if wpath is not None and w["kind"] == "store":
+                # the notify may be deferred behind a flag (`advanced = true` next to the store, `if advanced { notify }` after a loop over a
+                # batch): once the store has happened the flag is true and nothing sets it back, so the flag's False edge is not a way out
+                flags_ = set()
+                for j_, st_ in enumerate(b.blocks[w["bb"]]["stmts"]):
+                    if st_["k"] == "assign" and not st_["place"]["p"] and b.local_ty(st_["place"]["l"]) == "bool" and "use" in st_["rv"] \
+                            and const_val(sym.op(st_["rv"]["use"])) == 1:
+                        flags_.add(st_["place"]["l"])
+                reach_ = b.reachable((w["bb"],))
+                for l_ in list(flags_):
+                    for x_ in reach_:
+                        for st_ in b.blocks[x_]["stmts"]:
+                            if st_["k"] == "assign" and not st_["place"]["p"] and st_["place"]["l"] == l_ and not ("use" in st_["rv"] and const_val(sym.op(st_["rv"]["use"])) == 1):
+                                flags_.discard(l_)
+                if flags_:
+                    dead_ = []
+                    for x_ in sorted(b.live_blocks()):
+                        t_ = b.term(x_)
+                        if t_["k"] == "switch" and (op_place(t_["on"]) or {}).get("l") in flags_ and not (op_place(t_["on"]) or {}).get("p"):
+                            for v_, tb_ in t_["targets"]:
+                                if v_ == 0:
+                                    dead_.append((tb_, 0))
+                            if not any(v_ == 0 for v_, _ in t_["targets"]) and t_.get("otherwise") is not None and any(v_ == 1 for v_, _ in t_["targets"]):
+                                dead_.append((t_["otherwise"], 0))
+                    if dead_:
+                        wpath = must_cross(b, [(w["bb"], w["idx"])], return_points(b), good_n, stop=dead_)
+            if wpath is not None and w["kind"] == "store":
+                # `let before = g.f; .. stores .. ; if g.f - before > 0 { notify }` (or `g.f != before`): the notify is skipped only when the
+                # field did not change; after a store (which the C11 rules require to be strictly increasing) it did.  The evaluator
+                # reads `before` as the field itself, so the test shows up as a comparison of the field with itself
+                def _selfcmp(e_):
+                    if e_[0] != "bin" or e_[1] not in ("Gt", "Ne", "Lt", "Eq", "Le", "Ge"):
+                        return False
+                    l_, r_ = e_[2], e_[3]
+                    if l_[0] == "field" and l_[2] == "0" and l_[1][0] == "bin" and l_[1][1] in ("SubWithOverflow", "Sub"):
+                        return render(l_[1][2]).endswith("." + f) and render(l_[1][2]) == render(l_[1][3]) and const_val(r_) == 0
+                    if l_[0] == "bin" and l_[1] == "Sub":
+                        return render(l_[2]).endswith("." + f) and render(l_[2]) == render(l_[3]) and const_val(r_) == 0
+                    return render(l_).endswith("." + f) and render(l_) == render(r_)
+                dead2 = []
+                for x_ in sorted(b.live_blocks()):
+                    for f_ in facts_at(b, sym, facts, x_):
+                        unchanged = (f_["expr"][1] in ("Gt", "Ne", "Lt") and f_["val"] is False) or (f_["expr"][1] in ("Eq", "Le", "Ge") and f_["val"] is True) if f_["expr"][0] == "bin" else False
+                        if unchanged and _selfcmp(f_["expr"]) and not any(_selfcmp(f2["expr"]) for q_ in b.preds().get(x_, []) for f2 in facts_at(b, sym, facts, q_)):
+                            dead2.append((x_, 0))
+                if dead2:
+                    wpath = must_cross(b, [(w["bb"], w["idx"])], return_points(b), good_n, stop=dead2)
+            if wpath is not None and w["kind"] == "mut-borrow":
+                # `let previous = mem::replace(&mut g.f, new); if new != previous { notify }`: the swap is a store of `new`, and the notify is
+                # skipped only when the value did not change
+                reps_ = [(ri_, rt_) for ri_, rt_ in b.calls() if callee_matches(rt_["callee"], "std::mem::replace", "core::mem::replace") and len(rt_["args"]) == 2
+                         and render(sym.op(rt_["args"][0])).endswith("." + f)]
+                if len(reps_) == 1:
+                    ri_, rt_ = reps_[0]
+                    newv = sym.op(rt_["args"][1])
+                    dead3 = []
+                    for x_ in sorted(b.live_blocks()):
+                        for f_ in facts_at(b, sym, facts, x_):
+                            e_ = f_["expr"]
+                            if e_[0] == "bin" and e_[1] in ("Ne", "Eq") and ((e_[1] == "Ne" and f_["val"] is False) or (e_[1] == "Eq" and f_["val"] is True)):
+                                sides = (e_[2], e_[3])
+                                if any(x__ == newv for x__ in sides) and any(x__[0] == "call" and len(x__) > 3 and x__[3] == ri_ for x__ in sides):
+                                    dead3.append((x_, 0))
+                    if dead3:
+                        wpath = must_cross(b, [term_pt(b, ri_)], return_points(b), good_n, stop=dead3)
             before = False
             if wpath is not None:
                 # accept a notify that dominates the store with the guard held in between
